@@ -90,6 +90,11 @@ func main() {
 		mon := &chalMon{seen: map[[32]byte]bool{}}
 		nseq := r.Pick(450, 12000)
 		var wg sync.WaitGroup
+		// handlers that answer late under a request deadline (~4.5 s): beside everything else
+		var swg sync.WaitGroup
+		swg.Add(1)
+		go func() { defer swg.Done(); slowHandlers(r) }()
+		defer swg.Wait()
 		sem := make(chan struct{}, 8)
 		for i := 0; i < nseq; i++ {
 			c := r.Case("seq", i)
